@@ -282,7 +282,27 @@ pub fn eval(f: &str, a: &Value) -> Value {
             Ok(r) => json!([rot_index(r) as i64]),
             Err(_) => json!([-1]),
         },
-        "rotation.degree" => json!([rotation_of(a[0].as_i64().unwrap()).degree()]),
+        "rotation.degree" => {
+            let r = rotation_of(a[0].as_i64().unwrap());
+            json!([r.degree(), r.is_horizontal(), r.is_vertical()])
+        }
+        "refresh.flip" => {
+            // in = [v, h, [ops..]]   ops: "fv" | "fh"
+            let mut r = refresh(&a[0], &a[1]);
+            for op in a[2].as_array().unwrap() {
+                r = match op.as_str().unwrap() {
+                    "fv" => r.flip_vertical(),
+                    _ => r.flip_horizontal(),
+                };
+            }
+            json!([matches!(r.vertical, VerticalRefreshOrder::BottomToTop) as u8, matches!(r.horizontal, HorizontalRefreshOrder::RightToLeft) as u8])
+        }
+        "mock.display" => {
+            // the doc-test helper builds a working display
+            let d = mipidsi::_mock::new_mock_display();
+            let s = d.size();
+            json!([rot_index(d.orientation().rotation), d.orientation().mirrored, s.width, s.height, d.is_sleeping()])
+        }
         "rotation.all_angles" => {
             // the whole i32 range (or a strided part of it) against the 360-entry residue table given in `in`
             // in = [table(360 entries: 0..3 or -1), stride, offset]
